@@ -137,6 +137,7 @@ def run_cli(argv, stdin_bytes=b"", files=None):
         _patch(saved, bmain, "getpass", lambda prompt="": "")
         _patch(saved, bits.keys, "key", lambda *a, **kw: FAKE_KEY)
         _patch(saved, bits, "sig", recorder("sig", FAKE_SIG))
+        _patch(saved, bits, "sig_verify", recorder("sig_verify", "OK"))
         _patch(saved, bmain, "Config", SpyConfig)
 
         for h in blog.handlers:
